@@ -202,6 +202,24 @@ proof! {
     }
 }
 
+// the replacement itself on minimal books (cheap even when the code under test is wrong): a Snapshot event always
+// replaces levels, sequence and time, whatever the sequence numbers are
+proof! {
+    #[kani::unwind(8)]
+    fn c05_q_book_snapshot_replaces() {
+        let mut book = OrderBook::new(any_u64(), Some(time(4)), any_sorted::<0>(false), any_sorted::<1>(true));
+        let (bids1, asks1) = (any_sorted::<1>(false), any_sorted::<0>(true));
+        let sequence: u64 = any_u64();
+        let had = book.sequence;
+        book.update(OrderBookEvent::Snapshot(OrderBook::new(sequence, None, bids1, asks1)));
+        assert!(book.sequence == sequence && book.time_engine.is_none(), "C05: sequence / time are not the snapshot's");
+        assert!(book.bids().levels() == &bids1[..] && book.asks().levels().is_empty(), "C05: snapshot did not replace the book");
+        kani::cover!(sequence < had, "snapshot with a lower sequence than the local book");
+        kani::cover!(sequence > had, "snapshot with a higher sequence");
+        core::mem::forget(book);
+    }
+}
+
 proof! {
     #[kani::unwind(8)]
     fn c05_twin_must_fail() {
